@@ -39,6 +39,8 @@ def is_pure(e: ast.expr | None, depth: int = 0) -> bool:
         return ok_idx and is_pure(e.value, depth + 1)
     if isinstance(e, ast.Compare):
         return is_pure(e.left, depth + 1) and all(is_pure(c, depth + 1) for c in e.comparators)
+    if isinstance(e, ast.BoolOp):
+        return all(is_pure(v, depth + 1) for v in e.values)
     if isinstance(e, ast.UnaryOp) and isinstance(e.op, (ast.Not, ast.USub)):
         return is_pure(e.operand, depth + 1)
     if isinstance(e, ast.Tuple):
@@ -263,8 +265,9 @@ def propagate_in(f: Func, summ: dict[str, set[str]], res: Any) -> int:
         done += len(repl)
         if ok_all:
             _remove_stmt(f.node, st)
-    if done:
+        # the CFG and the candidate table describe the function as it was: rewrite one alias at a time
         ast.fix_missing_locations(f.node)
+        return done
     return done
 
 
@@ -279,6 +282,44 @@ def _remove_stmt(root: ast.AST, st: ast.stmt) -> None:
                 return
 
 
+def loops_to_comprehensions(repo: Repo) -> int:
+    """N9:  xs = [] ; for v in it: xs.append(e)   ->   xs = [e for v in it]   (the loop body is that one call)."""
+    count = 0
+
+    def process(body: list[ast.stmt]) -> None:
+        nonlocal count
+        i = 0
+        while i < len(body):
+            st = body[i]
+            for fld in ("body", "orelse", "finalbody"):
+                b = getattr(st, fld, None)
+                if isinstance(b, list) and b and isinstance(b[0], ast.stmt):
+                    process(b)
+            for h in getattr(st, "handlers", []) or []:
+                process(h.body)
+            if i + 1 < len(body) and isinstance(st, (ast.Assign, ast.AnnAssign)) and isinstance(getattr(st, "value", None), ast.List) and not st.value.elts:
+                tgt = st.targets[0] if isinstance(st, ast.Assign) and len(st.targets) == 1 else getattr(st, "target", None)
+                lp = body[i + 1]
+                if (
+                    isinstance(tgt, ast.Name) and isinstance(lp, ast.For) and not lp.orelse and len(lp.body) == 1 and isinstance(lp.target, ast.Name)
+                    and isinstance(lp.body[0], ast.Expr) and isinstance(lp.body[0].value, ast.Call) and isinstance(lp.body[0].value.func, ast.Attribute)
+                    and lp.body[0].value.func.attr == "append" and isinstance(lp.body[0].value.func.value, ast.Name) and lp.body[0].value.func.value.id == tgt.id
+                    and len(lp.body[0].value.args) == 1 and not any(isinstance(x, ast.Name) and x.id == tgt.id for x in ast.walk(lp.body[0].value.args[0]))
+                    and not any(isinstance(x, (ast.Await, ast.Yield, ast.YieldFrom)) for x in ast.walk(lp.body[0].value.args[0]))
+                ):
+                    comp = ast.ListComp(elt=lp.body[0].value.args[0], generators=[ast.comprehension(target=lp.target, iter=lp.iter, ifs=[], is_async=0)])
+                    st.value = comp
+                    del body[i + 1]
+                    count += 1
+            i += 1
+
+    for f in repo.funcs.values():
+        if f.parent is None:
+            process(f.node.body)
+            ast.fix_missing_locations(f.node)
+    return count
+
+
 def propagate_aliases(repo: Repo) -> int:
     summ = _write_summaries(repo)
     res = _write_summaries.res  # type: ignore[attr-defined]
@@ -288,11 +329,17 @@ def propagate_aliases(repo: Repo) -> int:
         for f in list(repo.funcs.values()):
             if f.parent is not None:
                 continue  # nested functions are rewritten through their outermost function
-            n += propagate_in(f, summ, res)
+            for _i in range(40):
+                k = propagate_in(f, summ, res)
+                if not k:
+                    break
+                n += k
+                res._local_cache.clear()
         total += n
         if not n:
             break
         # the resolver caches local assignments: start afresh for the next round
         summ = _write_summaries(repo)
         res = _write_summaries.res  # type: ignore[attr-defined]
+    repo.normalisation["loops_to_comprehensions"] = loops_to_comprehensions(repo)
     return total
